@@ -27,8 +27,124 @@ pub mod walker;
 
 /// `V` bit 0: unified object reference (REF_OFF = 0; required by Compressor); otherwise REF_OFF = 8.
 /// `V` bit 1: MAX_ALIGNMENT = 4096 instead of 64.
+/// `V` bits 2-4: per-object metadata placement table (see `placement`), 0 = the original placement.
 #[derive(Default)]
 pub struct ShadowVM<const V: u32>;
+
+// ------------------------------------------------------------------------------------------------
+// Metadata placement tables (C24; bits 2-4 of V). Each table says which of the per-object metadata
+// live in the header (bits of word 0, the forwarding/scratch word) and in which order the others
+// are declared with side_first / side_after. The forwarding pointer is always in_header(0).
+//   header bits of word 0: forwarding bits 0-1, mark 2, log 3, pin 4, LOS mark/nursery 5-6.
+//   P  log     local side declaration order            in header
+//   0  side    fwdbits, mark, [pin], los               -                  (the original placement)
+//   1  header  fwdbits, mark, [pin], los               log
+//   2  side    fwdbits, [pin], los                     mark
+//   3  side    mark, [pin], los                        fwdbits
+//   4  header  -                                       log, fwdbits, mark, pin, los
+//   5  side    los, mark, fwdbits, [pin]               -
+//   6  header  mark, los, [pin]                        log, fwdbits
+//   7  side    los, [pin]                              fwdbits, mark
+// ------------------------------------------------------------------------------------------------
+pub const fn placement(v: u32) -> u32 {
+    (v >> 2) & 7
+}
+pub const M_FWD: u8 = 1;
+pub const M_MARK: u8 = 2;
+pub const M_PIN: u8 = 3;
+pub const M_LOS: u8 = 4;
+/// Declaration order of the local side specs of placement `p` (0-terminated).
+pub const fn side_order(p: u32) -> [u8; 5] {
+    match p {
+        0 | 1 => [M_FWD, M_MARK, M_PIN, M_LOS, 0],
+        2 => [M_FWD, M_PIN, M_LOS, 0, 0],
+        3 => [M_MARK, M_PIN, M_LOS, 0, 0],
+        4 => [0, 0, 0, 0, 0],
+        5 => [M_LOS, M_MARK, M_FWD, M_PIN, 0],
+        6 => [M_MARK, M_LOS, M_PIN, 0, 0],
+        _ => [M_LOS, M_PIN, 0, 0, 0],
+    }
+}
+pub const fn log_in_header(p: u32) -> bool {
+    matches!(p, 1 | 4 | 6)
+}
+/// Is local spec `m` declared on the side by placement `p`?
+pub const fn on_side(p: u32, m: u8) -> bool {
+    let o = side_order(p);
+    let mut i = 0;
+    while i < 5 {
+        if o[i] == m {
+            return true;
+        }
+        i += 1;
+    }
+    false
+}
+/// The local side spec declared before `m` (0: `m` is the first one). The pin bit only exists with
+/// the object_pinning feature; without it, it is skipped.
+pub const fn side_prev(p: u32, m: u8) -> u8 {
+    let o = side_order(p);
+    let mut prev = 0;
+    let mut i = 0;
+    while i < 5 {
+        if o[i] == m {
+            return prev;
+        }
+        if o[i] != 0 && (o[i] != M_PIN || cfg!(feature = "object_pinning")) {
+            prev = o[i];
+        }
+        i += 1;
+    }
+    0
+}
+/// The (untyped) spec of local metadata `m` under placement `p`, built with the typed
+/// `in_header` / `side_first` / `side_after` constructors only.
+pub const fn local_spec(p: u32, m: u8) -> mmtk::util::metadata::MetadataSpec {
+    match m {
+        M_FWD => *fwd_bits_spec(p).as_spec(),
+        M_MARK => *mark_bit_spec(p).as_spec(),
+        #[cfg(feature = "object_pinning")]
+        M_PIN => *pin_bit_spec(p).as_spec(),
+        _ => *los_spec(p).as_spec(),
+    }
+}
+pub const fn fwd_bits_spec(p: u32) -> VMLocalForwardingBitsSpec {
+    if !on_side(p, M_FWD) {
+        VMLocalForwardingBitsSpec::in_header(0)
+    } else if side_prev(p, M_FWD) == 0 {
+        VMLocalForwardingBitsSpec::side_first()
+    } else {
+        VMLocalForwardingBitsSpec::side_after(&local_spec(p, side_prev(p, M_FWD)))
+    }
+}
+pub const fn mark_bit_spec(p: u32) -> VMLocalMarkBitSpec {
+    if !on_side(p, M_MARK) {
+        VMLocalMarkBitSpec::in_header(2)
+    } else if side_prev(p, M_MARK) == 0 {
+        VMLocalMarkBitSpec::side_first()
+    } else {
+        VMLocalMarkBitSpec::side_after(&local_spec(p, side_prev(p, M_MARK)))
+    }
+}
+#[cfg(feature = "object_pinning")]
+pub const fn pin_bit_spec(p: u32) -> VMLocalPinningBitSpec {
+    if !on_side(p, M_PIN) {
+        VMLocalPinningBitSpec::in_header(4)
+    } else if side_prev(p, M_PIN) == 0 {
+        VMLocalPinningBitSpec::side_first()
+    } else {
+        VMLocalPinningBitSpec::side_after(&local_spec(p, side_prev(p, M_PIN)))
+    }
+}
+pub const fn los_spec(p: u32) -> VMLocalLOSMarkNurserySpec {
+    if !on_side(p, M_LOS) {
+        VMLocalLOSMarkNurserySpec::in_header(5)
+    } else if side_prev(p, M_LOS) == 0 {
+        VMLocalLOSMarkNurserySpec::side_first()
+    } else {
+        VMLocalLOSMarkNurserySpec::side_after(&local_spec(p, side_prev(p, M_LOS)))
+    }
+}
 
 pub const fn ref_off(v: u32) -> usize {
     if v & 1 != 0 {
@@ -69,6 +185,21 @@ pub static VERBOSE_COPY: AtomicBool = AtomicBool::new(false);
 pub static COPY_COUNT: AtomicU64 = AtomicU64::new(0);
 pub static SCAN_COUNT: AtomicU64 = AtomicU64::new(0);
 pub static WALK_AT_RESUME: AtomicBool = AtomicBool::new(true);
+
+/// Optional extra reporters for directed driver modes (additive; unset by default):
+/// `RESUME_HOOK(epoch)` runs inside `resume_mutators` right after the walker report, i.e. after the
+/// collection has completely finished and before any mutator runs; `MIDGC_HOOK(epoch)` runs at the
+/// first `process_weak_refs` call of a collection, i.e. after the transitive closure from the roots
+/// and before the release phase. Both only report (gcdrive --mode immixlines, C34).
+pub type GcHook = Box<dyn Fn(u64) + Send + Sync>;
+pub static RESUME_HOOK: Mutex<Option<GcHook>> = Mutex::new(None);
+pub static MIDGC_HOOK: Mutex<Option<GcHook>> = Mutex::new(None);
+fn run_gc_hook(h: &Mutex<Option<GcHook>>, epoch: u64) {
+    let g = h.lock().unwrap_or_else(|e| e.into_inner());
+    if let Some(f) = g.as_ref() {
+        f(epoch);
+    }
+}
 
 pub const ROOTS_PER_MUTATOR: usize = 32;
 pub const MAX_MUTATORS: usize = 4;
@@ -140,8 +271,12 @@ impl LineLog {
         if let Some(w) = g.as_mut() {
             let _ = w.write_all(line.as_bytes());
             let _ = w.write_all(b"\n");
-            // write through: an abort (stack overflow, SIGSEGV) must not lose the tail of the trace
-            let _ = w.flush();
+            // write through at the events that precede calls into MMTk: an abort (stack overflow,
+            // SIGSEGV) inside the call must not lose the tail of the trace
+            let b = line.as_bytes();
+            if b.len() > 8 && matches!(&b[7..9], b"Al" | b"Op" | b"GC" | b"Cr" | b"Re" | b"St") {
+                let _ = w.flush();
+            }
         }
         self.count.fetch_add(1, Ordering::Relaxed);
     }
@@ -295,20 +430,16 @@ pub fn payload_hash(r: usize) -> i64 {
 pub struct OM<const V: u32>;
 
 impl<const V: u32> ObjectModel<ShadowVM<V>> for OM<V> {
-    const GLOBAL_LOG_BIT_SPEC: VMGlobalLogBitSpec = VMGlobalLogBitSpec::side_first();
+    // Placement 0 (variants 0..3) is the original declaration: log side_first; forwarding bits
+    // side_first, mark side_after(forwarding bits), [pin side_after(mark)], LOS side_after(pin|mark).
+    const GLOBAL_LOG_BIT_SPEC: VMGlobalLogBitSpec =
+        if log_in_header(placement(V)) { VMGlobalLogBitSpec::in_header(3) } else { VMGlobalLogBitSpec::side_first() };
     const LOCAL_FORWARDING_POINTER_SPEC: VMLocalForwardingPointerSpec = VMLocalForwardingPointerSpec::in_header(0);
-    const LOCAL_FORWARDING_BITS_SPEC: VMLocalForwardingBitsSpec = VMLocalForwardingBitsSpec::side_first();
-    const LOCAL_MARK_BIT_SPEC: VMLocalMarkBitSpec =
-        VMLocalMarkBitSpec::side_after(Self::LOCAL_FORWARDING_BITS_SPEC.as_spec());
+    const LOCAL_FORWARDING_BITS_SPEC: VMLocalForwardingBitsSpec = fwd_bits_spec(placement(V));
+    const LOCAL_MARK_BIT_SPEC: VMLocalMarkBitSpec = mark_bit_spec(placement(V));
     #[cfg(feature = "object_pinning")]
-    const LOCAL_PINNING_BIT_SPEC: VMLocalPinningBitSpec =
-        VMLocalPinningBitSpec::side_after(Self::LOCAL_MARK_BIT_SPEC.as_spec());
-    #[cfg(feature = "object_pinning")]
-    const LOCAL_LOS_MARK_NURSERY_SPEC: VMLocalLOSMarkNurserySpec =
-        VMLocalLOSMarkNurserySpec::side_after(Self::LOCAL_PINNING_BIT_SPEC.as_spec());
-    #[cfg(not(feature = "object_pinning"))]
-    const LOCAL_LOS_MARK_NURSERY_SPEC: VMLocalLOSMarkNurserySpec =
-        VMLocalLOSMarkNurserySpec::side_after(Self::LOCAL_MARK_BIT_SPEC.as_spec());
+    const LOCAL_PINNING_BIT_SPEC: VMLocalPinningBitSpec = pin_bit_spec(placement(V));
+    const LOCAL_LOS_MARK_NURSERY_SPEC: VMLocalLOSMarkNurserySpec = los_spec(placement(V));
 
     const UNIFIED_OBJECT_REFERENCE_ADDRESS: bool = V & 1 != 0;
     const OBJECT_REF_OFFSET_LOWER_BOUND: isize = ref_off(V) as isize;
@@ -463,6 +594,9 @@ impl<const V: u32> Scanning<ShadowVM<V>> for Scan<V> {
         }
         let round = ROUND.fetch_add(1, Ordering::Relaxed);
         ev(Obj::new("ProcessWeakRefsEnter").int("round", round as i64).int("epoch", epoch as i64));
+        if round == 0 {
+            run_gc_hook(&MIDGC_HOOK, epoch);
+        }
         let mut traced_ids: Vec<i64> = vec![];
         let mut more = false;
         let table: Vec<(usize, usize)> = with_world(|w| w.weak_table.clone());
@@ -517,23 +651,35 @@ impl<const V: u32> Scanning<ShadowVM<V>> for Scan<V> {
     }
 
     fn forward_weak_refs(
-        _worker: &mut mmtk::scheduler::GCWorker<ShadowVM<V>>,
-        _tracer_context: impl ObjectTracerContext<ShadowVM<V>>,
+        worker: &mut mmtk::scheduler::GCWorker<ShadowVM<V>>,
+        tracer_context: impl ObjectTracerContext<ShadowVM<V>>,
     ) {
         ev(Obj::new("ForwardWeakRefs").int("epoch", GC_EPOCH.load(Ordering::Relaxed) as i64));
-        // forwarding plans (MarkCompact/Compressor): update table entries to forwarded addresses
-        with_world(|w| {
-            for e in w.weak_table.iter_mut() {
-                for x in [&mut e.0, &mut e.1] {
-                    if *x != 0 {
-                        let o = ObjectReference::from_raw_address(unsafe { Address::from_usize(*x) }).unwrap();
-                        if let Some(n) = o.get_forwarded_object() {
-                            *x = n.to_raw_address().as_usize();
+        // forwarding plans (MarkCompact/Compressor): update table entries to forwarded addresses.
+        // The entries are updated THROUGH THE TRACER, as the contract of forward_weak_refs says
+        // ("use it to update weak references"): objects that are alive only because of the weak
+        // table are not reached by the second (forwarding) transitive closure from the roots, and
+        // in MarkCompact that closure is what clears their mark bits. Reading
+        // get_forwarded_object() instead leaves stale mark bits behind, and a later collection
+        // then skips the fields of whatever object is allocated at such an address.
+        let table: Vec<(usize, usize)> = with_world(|w| w.weak_table.clone());
+        let mut new_table = table.clone();
+        tracer_context.with_tracer(worker, |tracer| {
+            for (i, e) in table.iter().enumerate() {
+                for (j, x) in [e.0, e.1].into_iter().enumerate() {
+                    if x != 0 {
+                        let o = ObjectReference::from_raw_address(unsafe { Address::from_usize(x) }).unwrap();
+                        let n = tracer.trace_object(o).to_raw_address().as_usize();
+                        if j == 0 {
+                            new_table[i].0 = n;
+                        } else {
+                            new_table[i].1 = n;
                         }
                     }
                 }
             }
         });
+        with_world(|w| w.weak_table = new_table);
     }
 }
 
@@ -567,9 +713,12 @@ impl<const V: u32> Collection<ShadowVM<V>> for Coll<V> {
 
     fn resume_mutators(_tls: VMWorkerThread) {
         let epoch = GC_EPOCH.load(Ordering::Relaxed);
+        // C28: raw page-resource counters at the quiescent point (GC work done, mutators stopped)
+        mmtk::verif::verif_emit_pr_counters(mmtk::<V>(), "resume");
         if WALK_AT_RESUME.load(Ordering::Relaxed) {
             walker::report::<V>("GCEnd", epoch);
         }
+        run_gc_hook(&RESUME_HOOK, epoch);
         ev(Obj::new("Resume").int("epoch", epoch as i64));
         GC_EPOCH.fetch_add(1, Ordering::Relaxed);
         let mut sp = SP.lock().unwrap();
@@ -728,6 +877,19 @@ pub fn boot<const V: u32>(cfg: &Config) -> &'static MMTK<ShadowVM<V>> {
     REF_OFF.store(ref_off(V), Ordering::SeqCst);
     mmtk::verif::set_thread_tag(1000);
     let mut builder = mmtk::MMTKBuilder::new_no_env_vars();
+    // C31 / C28: a non-default virtual memory layout (Map32 + sparse chunk SFT map on 64-bit),
+    // selected by the environment so that no caller's Config changes.
+    match std::env::var("SHADOW_VM_LAYOUT").as_deref() {
+        Ok("compressed") => builder.set_vm_layout(mmtk::util::heap::vm_layout::VMLayout {
+            log_address_space: 35,
+            heap_start: unsafe { Address::from_usize(0x4000_0000) },
+            heap_end: unsafe { Address::from_usize(0x8_0000_0000) },
+            log_space_extent: 31,
+            force_use_contiguous_spaces: false,
+        }),
+        Ok("32bit") => builder.set_vm_layout(mmtk::util::heap::vm_layout::VMLayout::new_32bit()),
+        _ => {}
+    }
     assert!(builder.set_option("plan", &cfg.plan), "bad plan {}", cfg.plan);
     assert!(builder.set_option("threads", &cfg.workers.to_string()));
     let trig = cfg.gc_trigger.clone().unwrap_or_else(|| format!("FixedHeapSize:{}m", cfg.heap_mb));
